@@ -304,6 +304,7 @@ func c07TypeChecks(un *U, t *TS, ty, ty2 cty.Type, cn, cnNO string) {
 			fail("json", fmt.Sprintf("MarshalJSON failed: %v", err))
 			return
 		}
+		checkRetained(un, "type.marshaljson", b, cn)
 		var back cty.Type
 		if err := back.UnmarshalJSON(b); err != nil {
 			fail("json", fmt.Sprintf("UnmarshalJSON(%s) failed: %v", b, err))
